@@ -9,6 +9,11 @@ Decided:
               advances lets consecutive un-committed puts all pass against the same stale total.
   AGREE-C24d  capacity_limit() = ticket capacity if non-zero else tier capacity (both arms present); apply_records
               keeps cached_payload_end monotone (max) when it places a payload.
+  COVER-C24e  the usage counter is seeded at open from *every* frame that owns payload bytes: the seeding function
+              (compute_payload_region_end, found as the source of cached_payload_end in the constructors) reads no
+              Frame field other than payload_offset / payload_length. Deleted and superseded frames keep their bytes in
+              the file until vacuum, so a seed filtered by status (or anything else) under-counts after a reopen and
+              lets a put through that the limit forbids.
 Not decided: the value-level bound over histories. Untriaged candidate (not armed): enable_vec() and the vec manifest
 dimension are stored before the capacity check, so a rejected put is not entirely without trace."""
 from . import lib
@@ -47,7 +52,58 @@ def writes_field(F, fn, field, seen=None, depth=4):
     return None
 
 
+def seed_coverage(ctx, F):
+    ctx.rule('COVER-C24e', 'the open-time seed of the usage counter ranges over every frame: only payload_offset/payload_length of Frame are read')
+    g = ctx.need('COVER-C24e', 'memvid::lifecycle::compute_payload_region_end')
+    if g is None:
+        return
+    # it is the seed: some constructor stores its result into cached_payload_end
+    users = [f for f in F.fns.values() if f.calls_to('memvid::lifecycle::compute_payload_region_end')]
+    seeded = False
+    for f in users:
+        for bb, i, st in f.stmts():
+            rv = st['rv']
+            if rv['k'] == 'agg' and rv.get('adt') == 'Memvid' and 'cached_payload_end' in rv.get('fields', []):
+                sl = lib.slice_back(f, [rv['ops'][rv['fields'].index('cached_payload_end')]], through_calls=True, at=(bb, i))
+                if any(c.is_('memvid::lifecycle::compute_payload_region_end') for c in sl.calls):
+                    seeded = True
+        for st in lib.field_stores(f, 'Memvid', 'cached_payload_end'):
+            if any(c.is_('memvid::lifecycle::compute_payload_region_end') for c in lib.slice_back(f, lib.rv_operands(st['rv']), through_calls=True, at=(st['bb'], st['idx'])).calls):
+                seeded = True
+    ctx.evaluations += len(users)
+    if not seeded:
+        ctx.lost('COVER-C24e', 'compute_payload_region_end no longer seeds Memvid.cached_payload_end')
+        return
+    read = set()
+    for b in [g] + F.closures_of(g):
+        ctx.touch(b, len(b.blocks))
+        sl_fields = set()
+        for bb, i, st in b.stmts():
+            for o in lib.rv_operands(st['rv']):
+                p = op_place(o)
+                if p is not None:
+                    sl_fields |= {f for ow, f in p.field_owners() if ow == 'Frame'}
+            if st['rv']['k'] in ('ref', 'discr', 'len') and 'p' in st['rv']:
+                from .facts import Place
+                sl_fields |= {f for ow, f in Place(st['rv']['p']).field_owners() if ow == 'Frame'}
+        for c in b.calls():
+            for a in c.args:
+                p = op_place(a)
+                if p is not None:
+                    sl_fields |= {f for ow, f in p.field_owners() if ow == 'Frame'}
+        read |= sl_fields
+    extra = read - {'payload_offset', 'payload_length'}
+    if not {'payload_offset', 'payload_length'} <= read:
+        ctx.lost('COVER-C24e', 'compute_payload_region_end does not read payload_offset/payload_length (found %s)' % sorted(read))
+    elif extra:
+        ctx.bad('COVER-C24e', g, 'the open-time seed of the capacity usage counter depends on Frame.%s: frames it skips still occupy their payload bytes in the file, so after a reopen '
+                'the counter is too low and a put beyond the limit is accepted' % ', Frame.'.join(sorted(extra)), sink='Memvid.cached_payload_end', detail='usage-seed-filtered:' + ','.join(sorted(extra)))
+    else:
+        ctx.ok('COVER-C24e', g, 'seed = max over all frames of payload_offset + payload_length (no other Frame field read)')
+
+
 def run(ctx):
+    seed_coverage(ctx, ctx.facts())
     ctx.rule('GUARD-C24b', 'every WAL append in put_internal is dominated by projected <= capacity_limit(); failing edge -> CapacityExceeded')
     ctx.rule('COUPLE-C24a', 'the usage counter read by the capacity guard is advanced on put_internal\'s own acknowledged path (not only at commit)')
     ctx.rule('AGREE-C24d', 'capacity_limit = ticket capacity | tier capacity; cached_payload_end monotone in apply_records')
